@@ -79,7 +79,7 @@ def configs(ck):
     cfgs = []
     masses = [1.51, 4.92, 172.5]
 
-    def mk(qcd, kind, pt="unpol", method=None):
+    def mk(qcd, kind, pt="unpol", method=None, ref_on_wall=None):
         # matching ratios != 1: with L = 0 the NLO matching of light partons is trivial and a wrong
         # matching (direction, order) would be invisible
         ratios = [float(rng.choice([0.8, 1.3, 1.6])), float(rng.choice([0.8, 1.3])), 1.0]
@@ -130,15 +130,20 @@ def configs(ck):
                 mu2 = max(mu2, walls[nfl - 4] * 1.05)
             init, mid, fin = [mu0, nfl + 1], [mu1, nfl + 1], [mu2, nfl]
         meth = method or ("iterate-exact" if qcd > 1 else str(rng.choice(["iterate-exact", "truncated", "decompose-exact"])))
-        return dict(
+        # half of the cards give alpha_s exactly on the matching scale that is crossed, with the lower nf: the
+        # couplings of the upper patch are then reached through a zero-length step plus the decoupling
+        on_wall = bool(rng.integers(2)) if ref_on_wall is None else ref_on_wall
+        ref = [wall, nfl] if (kind != "patch" and on_wall) else [91.2, 5]
+        alphas = 0.118 if ref[0] == 91.2 else float(0.118 / (1 + 0.118 * (23 / (12 * np.pi)) * np.log(wall**2 / 91.2**2)))
+        return dict(ref=ref,
             qcd=qcd, qed=0, method=meth, pt=pt, init=init, targets=[], masses=masses, ratios=ratios, xgrid=[], degree=3,
-            scvar=None, xif=1.0, inversion="exact", iters=1 if qcd == 1 else (24 if ck.quick else 40), alphas=0.118, alphaem=0.007496252, em_running=False,
+            scvar=None, xif=1.0, inversion="exact", iters=1 if qcd == 1 else (24 if ck.quick else 40), alphas=alphas, alphaem=0.007496252, em_running=False,
             max_order=[10, 0], cores=5 if ck.quick else 4, n3lo_var=[0] * 7, fhmruvv=True, matching_order=None, scheme="POLE",
             _mid=mid, _final=fin, _seed=int(rng.integers(1 << 30)), _replicas=2, _grids=[12, 24] if ck.quick else [14, 28], _kind=kind,
         )
 
     if ck.quick:
-        cfgs = [mk(1, "wall-above"), mk(1, "down-leg"), mk(2, "overshoot")]
+        cfgs = [mk(1, "wall-above"), mk(1, "down-leg"), mk(2, "overshoot", ref_on_wall=True)]
     else:
         for kind in ("patch", "wall-below", "wall-above", "down-leg", "downward", "overshoot"):
             cfgs += [mk(1, kind), mk(2, kind), mk(2, kind, pt="pol" if kind != "downward" else "unpol")]
